@@ -13,6 +13,7 @@ HARNESSES = [
     dict(name="formats", src="props/formats.cpp", variant="plain"),
     dict(name="combine", src="props/combine.cpp", variant="plain"),
     dict(name="traps", src="props/traps.cpp", variant="plain"),
+    dict(name="impls", src="props/impls.cpp", variant="plain"),
     dict(name="traps_asan", src="props/traps.cpp", variant="asan"),
     dict(name="formats_asan", src="props/formats.cpp", variant="asan"),
 ]
@@ -166,4 +167,29 @@ CHECKS["C12"] = dict(
     assumptions=["sample grid positions follow Render's N_X_FRAC x N_Y_FRAC layout (first = (1 - (N-1)*floor(1/N))/2, spacing floor(1/N))",
                  "tie handling (edge exactly through a sample point) is not pinned by the statement: such pixels are excluded from the model check and law mismatches confined to them are the known finding S17",
                  "requests whose edge x at an image row leaves +-2^30 units are skipped (not representable for the edge walker)"],
+)
+
+CHECKS["C02"] = dict(
+    level="exploration",
+    rule=("rapidcheck scenes (70% 'plain' profile shaped like the fast-path tables: common formats, OVER/SRC/ADD/IN..., a8/solid/"
+          "component-alpha masks, none/scaled/rotated/affine transforms with nearest/bilinear/separable filters, repeats, widths "
+          "1-300 with mass at SIMD boundaries, offsets, dest clips, fenced buffers; 30% full profile with every image property) and "
+          "pixman_fill/pixman_blt requests (bpp 1..128 incl. unsupported, x/width 0-130, padded strides, 0-12 byte start offsets), "
+          "each rendered by 8 (quick) / 32 (thorough) worker processes started with different PIXMAN_DISABLE values; destination "
+          "digests (undefined bits masked) and the alpha-map digests must equal those of the general-only chain; source/mask must "
+          "be unmodified; each worker's chain length must match the subset it was asked for; fill/blt must have the exact "
+          "rectangle effect or return FALSE having changed nothing. Non-trivial (scenes) = at least two workers resolved the request "
+          "to different (level, composite function, iterator set) triples, measured through the PIXMAN_VERIF trace hook; (fill/blt) "
+          "some chain returned TRUE on an unaligned start or width."),
+    jobs=[
+        dict(harness="impls", prop="scene", cases=T(15000, 150000), procs=T(4, 6)),
+        dict(harness="impls", prop="fillblt", cases=T(15000, 200000), procs=T(2, 2)),
+        dict(harness="impls", prop="scene", cases=T(4000, 60000), procs=T(2, 3), tag="impls_scene_all32",
+             env={"VF_CHAINS": ";".join([w + " ".join(x for x, b in zip(("fast", "mmx", "sse2", "ssse3"), bits) if b)
+                                         for w in ("", "wholeops ") for bits in __import__("itertools").product((0, 1), repeat=4)][1:]) + ";"}),
+    ],
+    floor=T(15000, 300000), nt_floor=T(4000, 80000),
+    assumptions=["indexed formats use consistent palettes (store(fetch(i)) == i), as every real caller's do; with an inconsistent palette even the DST operator is observable",
+                 "undefined bits (padding bits of affected pixels; image alpha bits / map colour bits under a destination alpha map) are masked",
+                 "each worker is a fresh process: the implementation chain is fixed at library load"],
 )
